@@ -66,12 +66,22 @@ def build_setup(spec):
     return setup
 
 
+def eff_method(spec):
+    """Hankel method in effect: the run parameter `method` when given, else the class default (SSIdat*: dat, SSIcov*: cov_mm)."""
+    return spec.get("method") or ("dat" if "dat" in spec["cls"] else "cov_mm")
+
+
 def alg_kwargs(spec):
     cls = spec["cls"]
     if cls.startswith("pLSCF"):
-        return dict(ordmax=spec["ordmax"], nxseg=spec["nxseg"], method_SD=spec["method"], pov=spec.get("pov", 0.5))
+        kw = dict(ordmax=spec["ordmax"], nxseg=spec["nxseg"], method_SD=spec["method"], pov=spec.get("pov", 0.5))
+        if spec.get("ordmin") is not None:
+            kw["ordmin"] = spec["ordmin"]
+        return kw
     kw = dict(br=spec["br"], ordmax=spec["ordmax"])
-    if "cov" in cls:
+    if spec.get("ordmin") is not None:
+        kw["ordmin"] = spec["ordmin"]
+    if spec.get("method") is not None:  # the run parameter overrides the class default, for every SSI class
         kw["method"] = spec["method"]
     if cls in ("SSIcov", "SSIdat"):
         if spec.get("ref_ind") is not None:
@@ -121,14 +131,14 @@ def unfiltered(alg, spec):
     cls = spec["cls"]
     if cls in ("SSIcov", "SSIdat"):
         Y = alg.data.T
-        method = spec["method"] if cls == "SSIcov" else "dat"
+        method = eff_method(spec)
         unc = bool(spec.get("calc_unc"))
         Yref = Y[spec["ref_ind"], :] if spec.get("ref_ind") is not None else Y
         H, T = ssi.build_hank(Y=Y, Yref=Yref, br=spec["br"], method=method, calc_unc=unc, nb=spec.get("nb", 100))
         Obs, A, C, Q1, Q2, Q3, Q4 = ssi.SSI_fast(H, spec["br"], spec["ordmax"], step=1, calc_unc=unc, T=T, nb=spec.get("nb", 100))
         Fn, Xi, Phi, Lam, FnC, XiC, PhiC = ssi.SSI_poles(Obs, A, C, spec["ordmax"], alg.dt, step=1, calc_unc=unc, Q1=Q1, Q2=Q2, Q3=Q3, Q4=Q4)
     elif cls in ("SSIcov_MS", "SSIdat_MS"):
-        method = spec["method"] if cls == "SSIcov_MS" else "dat"
+        method = eff_method(spec)
         Obs, A, C = ssi.SSI_multi_setup(alg.data, alg.fs, spec["br"], spec["ordmax"], step=1, method_hank=method)
         Fn, Xi, Phi, Lam, FnC, XiC, PhiC = ssi.SSI_poles(Obs, A, C, spec["ordmax"], alg.dt, step=1, calc_unc=False)
     else:
@@ -478,6 +488,8 @@ def gen_hc(rng, U, mpc, mpd, mode):
     xi = [x for x in U["Xi"].ravel() if x > 0]
     flat = lambda t: [x for row in t for x in row]
     which = set(rng.choice(["xi", "mpc", "mpd", "cov"], size=int(rng.integers(1, 5)), replace=False).tolist())
+    if mode == "cov":
+        which = {"cov"} | (which if rng.random() < 0.5 else set())
     tie = lambda: bool(rng.random() < 0.3)
     if "xi" in which:
         v = quant(xi, 0.3 + 0.6 * rng.random(), rng, tie())
@@ -503,12 +515,18 @@ def gen_spec(rng, cls, quick, k):
     r = rng.random()
     spec["kind"] = "modes" if r < 0.8 else str(rng.choice(["dupchan", "deadchan", "white"]))
     if cls.startswith("pLSCF"):
-        spec.update(ordmax=int(rng.integers(3, 7 if quick else 9)), nxseg=int(rng.choice([64, 128])), method=str(rng.choice(["per", "cor"])),
+        spec.update(ordmax=int(rng.integers(3, 9 if quick else 11)), nxseg=int(rng.choice([64, 128])), method=str(rng.choice(["per", "cor"])),
                     pov=float(rng.choice([0.5, 0.25])), n=int(rng.integers(500, 900)))
     else:
         spec.update(br=int(rng.integers(4, 8)), ordmax=int(rng.integers(5, 11 if quick else 13)), n=int(rng.integers(300, 700)))
+        # class x run-parameter method: the run parameter, when given, overrides the class default
+        r = rng.random()
         if "cov" in cls:
-            spec["method"] = str(rng.choice(["cov_mm", "cov_R"]))
+            spec["method"] = str(rng.choice(["cov_mm", "cov_R"])) if r < 0.65 else (None if r < 0.8 else "dat")
+        else:
+            spec["method"] = None if r < 0.4 else str(rng.choice(["cov_mm", "cov_R", "dat"]))
+        if spec["method"] is None:
+            spec.pop("method")
     if cls.endswith("_MS"):
         spec.update(nref=int(rng.integers(1, 3)), nmov=int(rng.integers(1, 3)))
         if rng.random() < 0.4:
@@ -519,9 +537,12 @@ def gen_spec(rng, cls, quick, k):
             if rng.random() < 0.4:
                 nref = int(rng.integers(1, spec["nch"] + 1))
                 spec["ref_ind"] = sorted(rng.choice(spec["nch"], size=nref, replace=False).tolist())
-            if cls == "SSIcov" and k % 2 == 0:
-                spec["calc_unc"] = True
-                spec["method"] = "cov_mm"  # build_hank offers the uncertainty factor for cov_mm only
+            if (cls == "SSIcov" and k % 2 == 0) or (cls == "SSIdat" and rng.random() < 0.4):
+                spec["calc_unc"] = True  # build_hank offers the uncertainty factor for cov_mm only
+                if cls == "SSIcov" and rng.random() < 0.3:
+                    spec.pop("method", None)  # class default cov_mm
+                else:
+                    spec["method"] = "cov_mm"  # for SSIdat: the documented run parameter
                 spec["nb"] = int(rng.choice([8, 12]))
                 spec["ordmax"] = min(spec["ordmax"], 8 if quick else 10)
     # the Hankel matrix must have at least ordmax columns/rows
@@ -529,6 +550,9 @@ def gen_spec(rng, cls, quick, k):
         nref = len(spec["ref_ind"]) if spec.get("ref_ind") is not None else (spec.get("nref") or spec.get("nch"))
         spec["ordmax"] = int(min(spec["ordmax"], (spec["br"]) * nref))
         spec["ordmax"] = max(spec["ordmax"], 2)
+    # ordmin plays no part in the hard criteria (they hold at EVERY order): any value 0..ordmax, biased to >= 3
+    lo = min(3, spec["ordmax"]) if rng.random() < 0.7 else 0
+    spec["ordmin"] = int(rng.integers(lo, spec["ordmax"] + 1))
     return spec
 
 
@@ -673,6 +697,9 @@ def run_config(ctx, spec, hcs, exprs, meta, corpus=False):
         ctx.hist("unfiltered tables with infinite entries (read as nan by the model)", spec["cls"])
     mpc, mpd = indicators(U["Phi"])
     ctx.hist("class", spec["cls"] + ("+unc" if spec.get("calc_unc") else ""))
+    if not pl:
+        ctx.hist("class x method parameter", "%s(method=%s)%s" % (spec["cls"], spec.get("method"), "+unc" if spec.get("calc_unc") else ""))
+    ctx.hist("ordmin / ordmax", "%s/%s" % (spec.get("ordmin"), spec["ordmax"]))
     ctx.hist("table shape", U["Fn"].shape)
     if U["PhiC"] is not None and np.isnan(U["PhiC"]).all():
         ctx.note("Phi_poles_cov is all-nan BEFORE any criterion (SSI_poles never fills it, see its FIXME): it cannot share the NaN pattern of the "
@@ -856,6 +883,7 @@ def sibling(rng, base, cls, quick):
     if not cls.startswith("pLSCF"):
         nref = s.get("nref") or s.get("nch")
         s["ordmax"] = max(2, int(min(s["ordmax"], s["br"] * nref)))
+    s["ordmin"] = int(min(s.get("ordmin", 0), s["ordmax"]))
     return s
 
 
@@ -930,10 +958,18 @@ def run(ctx):
         reps = per_cls + (per_cls if cls == "SSIcov" else 0)  # SSIcov: with and without uncertainties
         for rep in range(reps):
             spec = gen_spec(rng, cls, ctx.quick(), rep)
+            if rep == 1 and cls == "SSIdat":  # always present: the run parameter method overrides the class default, with uncertainties
+                spec.update(method="cov_mm", calc_unc=True, nb=8, ordmax=min(spec["ordmax"], 8), kind="modes")
+                spec["ordmin"] = min(spec["ordmin"], spec["ordmax"])
+            if rep == 1 and cls.startswith("pLSCF"):  # always present: a high ordmin on a table with many orders
+                spec.update(ordmax=max(spec["ordmax"], 7), kind="modes", noise=0.5)
+                spec["ordmin"] = spec["ordmax"] - int(rng.integers(0, 2))
             nh = ctx.n(4, 6)
             spec["_modes"] = [modes_pool[int(rng.integers(0, len(modes_pool)))] for _ in range(nh)]
             if rep == 0:
                 spec["_modes"][0] = "default"
+            if spec.get("calc_unc"):
+                spec["_modes"][1] = "cov"
             run_config(ctx, spec, [], exprs, meta)
             k += 1
     res = ctx.coq_eval(HEADER, exprs, shard=8)  # small shards: each stays far below the per-shard timeout on a loaded machine
